@@ -38,12 +38,11 @@ TraceSpec == TraceInit /\ [][TraceNext]_tvars
 TraceNextObs == TNew \/ Observe
 TraceSpecObs == TraceInit /\ [][TraceNextObs]_tvars
 
-Obs_C37(c) == [][~(c \in hist'[1].out.viol)]_tvars
-Obs_C37_Range          == Obs_C37("out-of-range")
-Obs_C37_IncreaseLowers == Obs_C37("increase-lowers")
-Obs_C37_DecreaseRaises == Obs_C37("decrease-raises")
-Obs_C37_Streak         == Obs_C37("longer-streak-higher-rating")
-Obs_C37_Band           == Obs_C37("wrong-band")
+Obs_C37_Range          == [][~("out-of-range" \in hist'[1].out.viol)]_tvars
+Obs_C37_IncreaseLowers == [][~("increase-lowers" \in hist'[1].out.viol)]_tvars
+Obs_C37_DecreaseRaises == [][~("decrease-raises" \in hist'[1].out.viol)]_tvars
+Obs_C37_Streak         == [][~("longer-streak-higher-rating" \in hist'[1].out.viol)]_tvars
+Obs_C37_Band           == [][~("wrong-band" \in hist'[1].out.viol)]_tvars
 
 HighWater == TLCSet(1, IF l > TLCGet(1) THEN l ELSE TLCGet(1))
 Accepted  == IF TLCGet(1) = Len(TLog) + 1 THEN TRUE ELSE PrintT("@@HW " \o ToString(TLCGet(1))) /\ FALSE
